@@ -523,8 +523,12 @@ func (o *Obligation) dischargeOnce(p *Prelude, tmpdir string, timeoutS int, lean
 		o.Output = err.Error()
 		return
 	}
-	if o.Cover && timeoutS > 10 {
-		timeoutS = 10
+	if o.Cover {
+		if timeoutS > 30 {
+			timeoutS = 20 // thorough tier
+		} else if timeoutS > 4 {
+			timeoutS = 4
+		}
 	}
 	ctx, cancel := context.WithCancel(context.Background())
 	defer cancel()
